@@ -1,6 +1,8 @@
 package main
 
 import (
+	"golang.org/x/tools/go/ssa"
+
 	"crypto/sha1"
 	"encoding/json"
 	"fmt"
@@ -52,10 +54,13 @@ type Run struct {
 	Exhaustive bool
 	Configs    []string
 	start      time.Time
+	// bounds engine bookkeeping for the thorough-tier compiler cross-check
+	BoundsFns map[*ssa.Function]bool
+	BoundsPos map[string]bool // "file.go:line" of every enumerated obligation
 }
 
 func NewRun(prop, tier string) *Run {
-	return &Run{Prop: prop, Tier: tier, FnsSeen: map[string]bool{}, start: time.Now()}
+	return &Run{Prop: prop, Tier: tier, FnsSeen: map[string]bool{}, start: time.Now(), BoundsFns: map[*ssa.Function]bool{}, BoundsPos: map[string]bool{}}
 }
 
 func (r *Run) pos(pos token.Pos) string {
